@@ -626,7 +626,14 @@ func (cg *caseGen) memoShape(cx ectx) (*pvcase.Expr, bool) {
 		}
 		return e
 	}
-	switch cg.r.IntN(5) {
+	switch cg.r.IntN(6) {
+	case 5: // o Self c s1 / o Self c s2 / leaf: the CURRENT rule nested in itself and backtracked over
+		self := &pvcase.Expr{Kind: pvcase.KRef, Name: cg.names[cg.cur]}
+		cg.refd[cg.cur] = true
+		o, c := cg.nonEmptyLit(), cg.nonEmptyLit()
+		ch := cg.newChoice()
+		ch.Kids = []*pvcase.Expr{act(seqOf(o, wrap(self), c, s1)), act(seqOf(o.Clone(), wrap(self.Clone()), c.Clone(), s2)), cg.nonNullLeaf()}
+		return ch, false
 	case 0: // X s1 / X s2
 		ch := cg.newChoice()
 		ch.Kids = []*pvcase.Expr{act(seqOf(wrap(xc()), s1)), act(seqOf(wrap(xc()), s2))}
